@@ -92,8 +92,33 @@ def main(argv=None):
         if not cases or len(replays) >= 3:
             continue
         idx, seed, plan, od = sorted(cases, key=lambda c: c[0])[0]
-        small, info = shrink.shrink(eng, plan, prop, od["oracle"])
-        out = runner.run_plan_iso(eng, small, prop)
+        history = []
+        o0 = runner.run_plan_iso(eng, plan, prop)
+        if o0.status == VIOLATION and o0.oracle == od["oracle"]:
+            small, info = shrink.shrink(eng, plan, prop, od["oracle"])
+            out = runner.run_plan_iso(eng, small, prop)
+        else:
+            # The run does not fail in a pristine process: what it saw was left behind by the runs before it in its chunk
+            # (the code under test keeps state in the process).  Replay the chunk's history in one process and minimise it
+            # by dropping earlier runs.
+            lo = od.get("chunk_lo", idx)
+            plans = [eng.generate(runner.run_seed(prop, tier, base_seed, k), tier, prop) for k in range(lo, idx + 1)]
+            keep = plans[:]
+            out = runner.run_history_iso(eng, keep, prop)
+            if out.status == VIOLATION and out.oracle == od["oracle"]:
+                i = 0
+                while i < len(keep) - 1:
+                    cand = keep[:i] + keep[i + 1:]
+                    o2 = runner.run_history_iso(eng, cand, prop)
+                    if o2.status == VIOLATION and o2.oracle == od["oracle"]:
+                        keep = cand
+                    else:
+                        i += 1
+                out = runner.run_history_iso(eng, keep, prop)
+            history, small = keep[:-1], keep[-1]
+            info = {"executions": len(plans), "ops_before": len(plan.get("ops", [])), "ops_after": len(small.get("ops", [])),
+                    "faults_before": len(plan.get("faults", [])), "faults_after": len(small.get("faults", [])),
+                    "history_runs_before": len(plans) - 1, "history_runs_after": len(history)}
         sig2 = "%s:%s:%s" % (prop, out.oracle, out.key)
         if out.status == VIOLATION and sig2 in known:
             # the minimised form is a listed finding: the original was that finding plus noise
@@ -103,7 +128,7 @@ def main(argv=None):
         os.makedirs(os.path.dirname(path), exist_ok=True)
         rec = {"property": prop, "engine": eng_name, "verif_seed": base_seed, "tier": tier, "index": idx,
                "run_seed": seed, "oracle": out.oracle, "key": out.key, "step": out.step,
-               "detail": out.detail, "digest": out.digest, "shrink": info, "plan": small,
+               "detail": out.detail, "digest": out.digest, "shrink": info, "plan": small, "history": history,
                "original_plan": plan, "replay": "cd /verif && bin/replay %s" % path}
         with open(path, "w") as f:
             json.dump(rec, f, indent=1, sort_keys=True)
@@ -116,9 +141,11 @@ def main(argv=None):
                 # the violation reproduces in a fresh interpreter, though not bit for bit (a defect that corrupts
                 # process-global state, or an exception whose text depends on the process): still a violation
                 print("note: fresh replay of %s reproduces the violation class with a different event digest" % path)
-            print("violation class %s: %d run(s); first index=%d seed=%d; minimised %d->%d ops, %d->%d faults"
+            print("violation class %s: %d run(s); first index=%d seed=%d; minimised %d->%d ops, %d->%d faults%s"
                   % (sig2, len(new_classes[sig]), idx, seed, info["ops_before"], info["ops_after"],
-                     info["faults_before"], info["faults_after"]))
+                     info["faults_before"], info["faults_after"],
+                     "; needs a process history of %d earlier run(s) (of %d in its chunk)" %
+                     (info["history_runs_after"], info["history_runs_before"]) if history else ""))
             print("  oracle=%s step=%d %s" % (out.oracle, out.step, out.detail[:600]))
             print("VIOLATION property=%s replay=%s" % (prop, path), flush=True)
             replays.append(path)
